@@ -30,20 +30,25 @@ def _outcome(f, *a):
 class LockstepReader:
     """Duck-typed EoReader: real reader + model in lock step."""
 
-    def __init__(self, real, model, trace=None, fuel=None, fail_at=None, counter=None, guard=None):
+    def __init__(self, real, model, trace=None, fuel=None, fail_at=None, counter=None, guard=None, touch=None):
         self._r = real
         self._m = model
         self.trace = trace if trace is not None else []
         self.fuel = fuel
         self.fail_at = fail_at
         self.counter = counter if counter is not None else [0]
+        self.touch = touch if touch is not None else [0]  # every interaction, incl. property reads (fuel)
         self.guard = guard
 
     # -- bookkeeping
+    def _touch(self):
+        self.touch[0] += 1
+        if self.fuel is not None and self.touch[0] > self.fuel:
+            raise FuelExhausted("more than %d reader interactions" % self.fuel)
+
     def _tick(self, name, args, can_fail=True):
         self.counter[0] += 1
-        if self.fuel is not None and self.counter[0] > self.fuel:
-            raise FuelExhausted("more than %d reader operations" % self.fuel)
+        self._touch()
         if can_fail and self.fail_at is not None and self.counter[0] >= self.fail_at:
             self.fail_at = None
             raise InjectedFault("injected reader fault at call %d (%s)" % (self.counter[0], name))
@@ -121,21 +126,25 @@ class LockstepReader:
 
     @property
     def remaining(self):
+        self._touch()
         self.check_state("remaining")
         return self._r.remaining
 
     @property
     def position(self):
+        self._touch()
         return self._r.position
 
     @property
     def chunked_reading_mode(self):
+        self._touch()
         return self._r.chunked_reading_mode
 
     @chunked_reading_mode.setter
     def chunked_reading_mode(self, v):
-        # not counted as fuel / fault point: a failing mode switch could not be restored by anyone,
-        # and the reference does not count mode switches as reader operations either
+        # not a fault point (a failing mode switch could not be restored by anyone); counted as an
+        # interaction for fuel only
+        self._touch()
         self._r.chunked_reading_mode = v
         self._m.chunked_reading_mode = v
         if len(self.trace) < 400:
@@ -154,7 +163,7 @@ class LockstepReader:
         self.check_state("slice", args)
         if ro[0] == "raise":
             raise ValueError("lock-step: both raised")
-        child = LockstepReader(ro[1], mo[1], trace=self.trace, fuel=self.fuel, counter=self.counter, guard=self.guard)
+        child = LockstepReader(ro[1], mo[1], trace=self.trace, fuel=self.fuel, counter=self.counter, guard=self.guard, touch=self.touch)
         child.check_state("slice-child", args)
         return child
 
